@@ -324,6 +324,9 @@ def load_known():
         return json.load(f)
 
 
+_CURRENT = {"seed": 0, "tier": "quick"}
+
+
 def write_replay(prop, step_info, violation):
     os.makedirs(REPLAYS, exist_ok=True)
     body = {
@@ -336,6 +339,8 @@ def write_replay(prop, step_info, violation):
         "signature": violation.get("signature"),
         "what": violation.get("what"),
         "case": violation.get("case"),
+        "seed": _CURRENT["seed"],
+        "tier": _CURRENT["tier"],
     }
     digest = hashlib.sha1(json.dumps(body, sort_keys=True).encode()).hexdigest()[:12]
     path = os.path.join(REPLAYS, "%s-%s.json" % (prop, digest))
@@ -346,9 +351,11 @@ def write_replay(prop, step_info, violation):
 
 def run_property(prop, tier, seed, only=None):
     t_start = time.time()
+    _CURRENT["seed"] = int(seed)
+    _CURRENT["tier"] = tier
     steps = plans.plan(prop, tier)
     if only:
-        steps = [s for s in steps if only in s.monitor or only == s.config]
+        steps = [s for s in steps if only in s.monitor or only == s.config or only == s.tool or only == s.profile]
     if not steps:
         print("NOT-CLAIMED property=%s (no check registered)" % prop)
         return 2
@@ -528,7 +535,9 @@ def run_property(prop, tier, seed, only=None):
         r = run_shard(st, b, tier, seed, 0, od)
         return r["report"]
 
-    extra = plans.post_process(prop, tier, seed, steps, monitors_out, run_single)
+    import types
+    helpers = types.SimpleNamespace(run_single=run_single, base_env=base_env, BUILD=BUILD, ROOT=ROOT, log=log, only=only)
+    extra = plans.post_process(prop, tier, seed, steps, monitors_out, helpers)
     if extra:
         for v in extra.get("violations", []):
             new_violations.append((v.get("step_info", {}), v))
@@ -620,7 +629,8 @@ def run_replay(prop, path):
     env = base_env()
     env.update(built["env_extra"])
     env = tool_env(rp["tool"], env)
-    cmd = list(built["prefix"]) + ["--replay", path, "--out", out, "--config", rp["config"], "--scratch", outdir]
+    cmd = list(built["prefix"]) + ["--replay", path, "--out", out, "--config", rp["config"], "--scratch", outdir,
+                                   "--seed", str(rp.get("seed", 0)), "--tier", rp.get("tier", "quick")]
     p = subprocess.run(cmd, cwd=HARNESS, env=env, stdout=subprocess.PIPE, stderr=subprocess.STDOUT, text=True, errors="replace", timeout=3600)
     tr = classify_tool_output(p.stdout or "")
     if tr:
